@@ -29,11 +29,16 @@ func New(config Configuration, statsdClient *statsd.Client) (*SSOProxy, error) {
 
 	hostRouter := hostmux.NewRouter()
 	for _, upstreamConfig := range config.UpstreamConfigs.upstreamConfigs {
+		// the upstream's own provider_slug, when it has one, selects its identity provider
+		providerUpstreamConfigs := config.UpstreamConfigs
+		if upstreamConfig.ProviderSlug != "" {
+			providerUpstreamConfigs.DefaultConfig.ProviderSlug = upstreamConfig.ProviderSlug
+		}
 		provider, err := newProvider(
 			config.ClientConfig,
 			config.ProviderConfig,
 			config.SessionConfig,
-			config.UpstreamConfigs,
+			providerUpstreamConfigs,
 			statsdClient,
 		)
 		if err != nil {
